@@ -546,33 +546,6 @@ struct Alphabet {
       if (s.key) n += std::string(" ") + KeyName(s.key); if (s.filt) n += std::string(" ") + FiltName(s.filt); if (s.extra) n += std::string(" ") + ExtraName(s.extra);
       return n;
    }
-   // Filter class used in violation keys, judged by BEHAVIOUR on the payloads that sit in the queue (evaluated without a node context,
-   // as the JETTISON handlers do): the first archive of the shape is re-created by the real factory and applied to Rich(1..9).
-   static const char * FilterBehaviour(int f)
-   {
-      static std::vector<const char *> memo;
-      if (memo.empty()) {
-         memo.resize(NUM_FILTSHAPES, "no-filter");
-         for (int k = 1; k < NUM_FILTSHAPES; k++) {
-            std::vector<MessageRef> a = FilterArchives(k);
-            muscle::QueryFilterRef q; if (!a.empty()) q = muscle::GetGlobalQueryFilterFactory()()->CreateQueryFilter(*a[0]());
-            if (q() == NULL) { memo[k] = "invalid-filter"; continue; }
-            int yes = 0; for (int v = 1; v <= 9; v++) { muscle::ConstMessageRef p = Rich(v); if (q()->Matches(p, NULL)) yes++; }
-            memo[k] = (yes == 9) ? "accepting-filter" : (yes == 0) ? "rejecting-filter" : "mixed-filter";
-         }
-      }
-      return memo[f];
-   }
-   // classification used in violation keys: <WHAT of the outermost Message, or BATCH+first inner command>:<filter class>
-   std::string ClassOf(int c) const
-   {
-      if (IsGeneric(c)) return WhatName(genWhat[c]) + ":" + FilterBehaviour(genShape[c].filt);
-      std::string n; (void) BuildSpecial(c - (int)genWhat.size(), &n, NULL);
-      std::string w = n.substr(0, n.find(' '));
-      if (w == "BATCH") { const size_t b = n.find('['); if (b != std::string::npos) { std::string inner = n.substr(b + 1); inner = inner.substr(0, inner.find_first_of(" ,]")); if (!inner.empty()) w += "+" + inner; } }
-      const char * ft = (n.find("(A)") != std::string::npos) ? "accepting-filter" : (n.find("(R)") != std::string::npos) ? "rejecting-filter" : (n.find("filter") != std::string::npos) ? "other-filter" : "no-filter";
-      return w + ":" + ft;
-   }
 };
 
 }  // namespace c07
